@@ -73,6 +73,29 @@ def case(col, rng, per_obs, auto_transform, user_nodes):
     col.add(None)
 
 
+def user_node_fully_flagged_case(col, rng):
+    """every distribution belongs to exactly one flag, a user node replaces ONE of the partial totals: log_prob stays the joint density"""
+    for which in ("lik", "prior"):
+        mu = lsl.param(np.float32(rng.normal()), lsl.Dist(tfd.Normal, loc=0.0, scale=2.0), name="mu")
+        y = lsl.obs(jnp.asarray(rng.normal(size=4), jnp.float32), lsl.Dist(tfd.Normal, loc=mu, scale=1.0), name="y")
+        gb = lsl.GraphBuilder().add(y)
+        user = lsl.Calc(lambda m: jnp.asarray(m) * 0.0 + 123.0, mu, _name="user_total")
+        if which == "lik":
+            gb.log_lik_node = user
+        else:
+            gb.log_prior_node = user
+        model = gb.build_model()
+        joint = float(tfd.Normal(0.0, 2.0).log_prob(model.vars["mu"].value)) + float(jnp.sum(tfd.Normal(model.vars["mu"].value, 1.0).log_prob(model.vars["y"].value)))
+        got = float(model.log_prob)
+        forwarded = float(model.log_lik if which == "lik" else model.log_prior)
+        bad = None
+        if not np.isclose(got, joint, rtol=1e-4, atol=1e-3):
+            bad = f"log_prob={got} but the joint log-density is {joint} (user log_{which} node present)"
+        elif forwarded != 123.0:
+            bad = f"user log_{which} node not forwarded unchanged ({forwarded})"
+        col.add({"sig": "native::totals::user_node_leaks_into_log_prob", "what": bad, "input": {"user_node": which}} if bad else None)
+
+
 def distreg_case(col, rng):
     import liesel.model as lsl
     from liesel.model import DistRegBuilder
@@ -108,6 +131,10 @@ def bounded(tier, seed):
                 case(col, rng, *c_)
             except Exception as e:
                 col.add({"sig": f"native::totals::exception::{type(e).__name__}", "what": f"{type(e).__name__}: {str(e)[:200]}", "input": {"combo": list(c_)}})
+    try:
+        user_node_fully_flagged_case(col, rng)
+    except Exception as e:
+        col.add({"sig": f"native::totals::exception::{type(e).__name__}", "what": str(e)[:200], "input": {"scenario": "user node, fully flagged"}})
     try:
         distreg_case(col, rng)
     except Exception as e:
